@@ -495,6 +495,32 @@ def main():
     out.append("Definition gen_timeout_delay (timeout warp : Q) : Q :=\n  "
                + qexpr(later[0].args[0], {"options.timeout": "timeout", "options.warp": "warp"}) + "%Q.\n")
 
+    # ---- the boxes handed on by the region operations (VNCDoToolClient.captureRegion, _expectFramebuffer, expectScreen)
+    m = method(client, "VNCDoToolClient", "captureRegion")
+    body = [s_ for s_ in m.body if not is_log_call(s_) and not (isinstance(s_, ast.Expr) and isinstance(s_.value, ast.Constant))]
+    if not (len(body) == 1 and isinstance(body[0], ast.Return) and isinstance(body[0].value, ast.Call)
+            and ast.unparse(body[0].value.func) == "self._capture" and len(body[0].value.args) == 6
+            and [ast.unparse(a_) for a_ in body[0].value.args[:2]] == ["fp", "incremental"] and not body[0].value.keywords):
+        raise GenError("captureRegion is no longer `return self._capture(fp, incremental, <box>)`")
+    bx = [zexpr(a_, ident(["x", "y", "w", "h"])) for a_ in body[0].value.args[2:]]
+    out.append(definition("gen_capture_region_box", ["x", "y", "w", "h"], "Z * Z * Z * Z", f"({bx[0]}, {bx[1]}, {bx[2]}, {bx[3]})"))
+    m = method(client, "VNCDoToolClient", "_expectFramebuffer")
+    body = [s_ for s_ in m.body if not is_log_call(s_) and not (isinstance(s_, ast.Expr) and isinstance(s_.value, ast.Constant))]
+    if [ast.unparse(s_) for s_ in body[:3]] != ["image = Image.open(filename)", "w, h = image.size", "self.expected = image.histogram()"]:
+        raise GenError("_expectFramebuffer no longer opens the file, takes its size and its histogram: " + "; ".join(ast.unparse(s_) for s_ in body[:3]))
+    r_ = body[3] if len(body) == 4 else None
+    if not (isinstance(r_, ast.Return) and isinstance(r_.value, ast.Call) and ast.unparse(r_.value.func) == "self._expectCompare"
+            and len(r_.value.args) == 3 and ast.unparse(r_.value.args[0]) == "None" and isinstance(r_.value.args[1], ast.Tuple)
+            and len(r_.value.args[1].elts) == 4 and ast.unparse(r_.value.args[2]) == "maxrms"):
+        raise GenError("_expectFramebuffer no longer ends with `return self._expectCompare(None, <box>, maxrms)`")
+    bx = [zexpr(a_, ident(["x", "y", "w", "h"])) for a_ in r_.value.args[1].elts]
+    out.append(definition("gen_expect_box", ["x", "y", "w", "h"], "Z * Z * Z * Z", f"({bx[0]}, {bx[1]}, {bx[2]}, {bx[3]})"))
+    for nm, want in (("expectScreen", "return self._expectFramebuffer(filename, 0, 0, maxrms)"), ("expectRegion", "return self._expectFramebuffer(filename, x, y, maxrms)")):
+        m = method(client, "VNCDoToolClient", nm)
+        body = [ast.unparse(s_) for s_ in m.body if not is_log_call(s_) and not (isinstance(s_, ast.Expr) and isinstance(s_.value, ast.Constant))]
+        if body != [want]:
+            raise GenError(f"{nm} is no longer `{want}`")
+
     # ---- the exit status of vncdo (command.VNCDoCLIFactory): which status each reactor event leaves behind
     cls = next((n for n in command.body if isinstance(n, ast.ClassDef) and n.name == "VNCDoCLIFactory"), None)
     if cls is None:
